@@ -98,10 +98,22 @@ class BinaryData:
         # return_address -> { (f3, f2, f1, f0) -> start_flip_address }
         self.wflips_dict: Dict[int, Dict[Tuple[int, ...], int]] = defaultdict(lambda: {})
 
+    def _covers_input_bit(self, address: int) -> bool:
+        # an op placed at this address would hold the input bit (3w + #w): running it reads an input bit
+        input_bit_address = 3 * self.memory_width + self.memory_width.bit_length()
+        return address <= input_bit_address < address + 2 * self.memory_width
+
     def get_wflip_spot(self) -> WFlipSpot:
-        if self.padding_ops_indices:
+        # never hand the op that holds the input bit to a wflip chain (executing the chain would consume input)
+        while self.padding_ops_indices:
             index = self.padding_ops_indices.pop()
-            return WFlipSpot(self.fj_words, index, self.first_address + self.memory_width * index)
+            address = self.first_address + self.memory_width * index
+            if not self._covers_input_bit(address):
+                return WFlipSpot(self.fj_words, index, address)
+
+        while self._covers_input_bit(self.next_wflip_address):
+            self.wflip_words += (0, 0)
+            self.next_wflip_address += 2 * self.memory_width
 
         wflip_spot = WFlipSpot(self.wflip_words, len(self.wflip_words), self.next_wflip_address)
         self.wflip_words += (0, 0)
